@@ -40,7 +40,8 @@ def run(m, suite=False, tier="quick"):
             out["suite_passes"] = t.returncode == 0
             out["suite_tail"] = t.stdout.strip().splitlines()[-1:] if t.stdout else []
         t0 = time.time()
-        env = dict(os.environ, VERIF_REPO=scratch, VERIF_MIN_BUDGET="60")
+        env = dict(os.environ, VERIF_REPO=scratch, VERIF_MIN_BUDGET="60",
+                   VERIF_REPLAY_DIR=os.path.join(scratch, "replays"), VERIF_EVIDENCE_DIR=os.path.join(scratch, "evidence"))
         c = subprocess.run([os.path.join(VERIF, "check"), prop, tier, "--no-selftest"], env=env,
                            capture_output=True, text=True, timeout=3600)
         out["rc"] = c.returncode
@@ -54,9 +55,6 @@ def run(m, suite=False, tier="quick"):
         return out
     finally:
         shutil.rmtree(scratch, ignore_errors=True)
-        for f in os.listdir(os.path.join(VERIF, "replays")):
-            if f.endswith(".json"):
-                os.remove(os.path.join(VERIF, "replays", f))
 
 
 def main():
@@ -78,12 +76,7 @@ def main():
             continue
         if prop and m[1] not in prop:
             continue
-        # evidence files are rewritten by the check; keep the committed ones intact
-        ev = os.path.join(VERIF, "evidence", f"{m[1]}.json")
-        saved = open(ev).read() if os.path.exists(ev) else None
         r = run(m, suite, tier)
-        if saved is not None:
-            open(ev, "w").write(saved)
         res.append(r)
         print(json.dumps(r))
         sys.stdout.flush()
